@@ -57,6 +57,14 @@ func c06Enumerate(tier string, seed int64, emit func(string, any)) {
 		emit("interference/default-sides-expr", c06Case{Kind: "interfere", Src: "d + 2d", Seed: s, Def: "2d6", Dev: 1})
 		emit("interference/default-sides-expr", c06Case{Kind: "interfere", Src: "func g(){ 3d }; g()", Seed: s, Def: "[4,6,8].rand()", Dev: 1})
 	}
+	// lifecycle: re-seeding an already used context, and captured states that are HELD while the context keeps running
+	for i := range c06Stmts {
+		for j := range c06Stmts {
+			for _, sd := range seeds[:2] {
+				emit("lifecycle", c06Case{Kind: "lifecycle", Stmts: []string{c06Stmts[i], c06Stmts[j], c06Stmts[(i+j)%len(c06Stmts)]}, Seed: sd})
+			}
+		}
+	}
 	// resume: every split of every statement list of length <= 3
 	n := len(c06Stmts)
 	for i := 0; i < n; i++ {
@@ -270,6 +278,53 @@ func c06Run(raw json.RawMessage) harn.Result {
 		res.Stats["executions"] += st.Runs
 		res.Stats["executions_with_placements_cut_at_bound"] += st.Forced
 		res.Sample = fmt.Sprintf("%q seed %d: %d placements of <=%d interfering actions, %d draws", c.Src, c.Seed, st.Runs, c.Dev, base.draws)
+	case "lifecycle":
+		p1, p2, p3 := c.Stmts[0], c.Stmts[1], c.Stmts[2]
+		seed2 := drv.SeedBytes(c.Seed + 100)
+		// (a) a context that has already rolled, given new seed bytes and re-initialised, must roll like a fresh context with those bytes
+		used := c06NewVM(c, append([]byte{}, seedBytes...))
+		_ = used.Run(p1)
+		used.Seed = append([]byte{}, seed2...)
+		used.Init()
+		cfgA := drv.AllOn()
+		cfgA.OpLimit = 30000
+		cfgA.Apply(used)
+		fresh := c06NewVM(c, append([]byte{}, seed2...))
+		oa, ob := c06Eval(c, used, p2, nil), c06Eval(c, fresh, p2, nil)
+		if !oa.same(ob) {
+			viol("C06:reseed-ignored", fmt.Sprintf("context seeded, used for %q, then given new seed bytes + Init(): %q gives %s; a fresh context with the same bytes gives %s", p1, p2, oa, ob))
+		}
+		// (b) captures are values: holding them while the context keeps running must not change them, nor the caller's seed bytes
+		mine := append([]byte{}, seedBytes...)
+		vmB := &ds.Context{Seed: mine}
+		vmB.Init()
+		cfgA.Apply(vmB)
+		_ = vmB.Run(p1)
+		cap1, _ := vmB.GetCurSeed()
+		cap1Copy := append([]byte{}, cap1...)
+		o2 := c06Eval(c, vmB, p2, nil)
+		cap2, _ := vmB.GetCurSeed()
+		_ = vmB.Run(p3)
+		_, _ = vmB.GetCurSeed()
+		if !bytes.Equal(cap1, cap1Copy) {
+			viol("C06:captured-state-mutated", fmt.Sprintf("the state captured after %q changed while the context went on running %q / %q", p1, p2, p3))
+		}
+		if !bytes.Equal(mine, seedBytes) {
+			viol("C06:caller-seed-mutated", fmt.Sprintf("the caller's seed bytes were overwritten after %q; %q", p1, p2))
+		}
+		_ = cap2
+		res1 := c06NewVM(c, cap1) // resume from the FIRST capture (held, not copied)
+		seen := map[any]*ds.VMValue{}
+		// variables as they were after p1: rebuild by running p1 on a twin
+		twin := c06NewVM(c, append([]byte{}, seedBytes...))
+		_ = twin.Run(p1)
+		twin.Attrs.Range(func(k string, v *ds.VMValue) bool { res1.Attrs.Store(k, deepClone(v, seen)); return true })
+		o2b := c06Eval(c, res1, p2, nil)
+		if !o2.same(o2b) {
+			viol("C06:resume-from-held-capture", fmt.Sprintf("after %q capture; run %q (original: %s); later resume from that capture and run %q again: %s", p1, p2, o2, p2, o2b))
+		}
+		res.Stats["executions"] += 6
+		res.Sample = fmt.Sprintf("lifecycle %q", c.Stmts)
 	case "resume":
 		for split := 1; split < len(c.Stmts); split++ {
 			p1 := strings.Join(c.Stmts[:split], "; ")
@@ -304,7 +359,7 @@ func c06Run(raw json.RawMessage) harn.Result {
 func init() {
 	harn.Register(&harn.Check{
 		ID:   "C06",
-		Rule: "interference: for each program of a pool covering every randomness-reaching construct (all dice families, nested/implicit-sides dice, dice inside functions, computed values, DefaultDiceSideExpr, templates, loops, shuffle/rand/randSize, st) x seeds: baseline on a seeded context; the process-wide generators re-seeded 3 ways; and EVERY placement of <= 2 (thorough: 3 for short programs) interfering actions (unseeded VM rolling, another seeded VM rolling, re-seeding of both process-wide generators twice, reading seeds / drawing from the global x/exp/rand) at every instruction boundary of every sub-VM depth (choice DFS over VerifStep slots): value, detail text, st callbacks, draw count and final generator state must equal the baseline, and VerifRoll must report the context's own generator for every draw. resume: for every statement list of <=3 dice-using statements and every split, the generator state captured after the prefix and installed in a fresh context with deep-copied variables must continue identically. Non-trivial = at least one die drawn.",
+		Rule: "interference: for each program of a pool covering every randomness-reaching construct (all dice families, nested/implicit-sides dice, dice inside functions, computed values, DefaultDiceSideExpr, templates, loops, shuffle/rand/randSize, st) x seeds: baseline on a seeded context; the process-wide generators re-seeded 3 ways; and EVERY placement of <= 2 (thorough: 3 for short programs) interfering actions (unseeded VM rolling, another seeded VM rolling, re-seeding of both process-wide generators twice, reading seeds / drawing from the global x/exp/rand) at every instruction boundary of every sub-VM depth (choice DFS over VerifStep slots): value, detail text, st callbacks, draw count and final generator state must equal the baseline, and VerifRoll must report the context's own generator for every draw. lifecycle: a used context that is given new seed bytes and re-initialised must roll like a fresh one; a captured state held while the context keeps running must stay intact (and the caller's seed bytes too) and still resume identically. resume: for every statement list of <=3 dice-using statements and every split, the generator state captured after the prefix and installed in a fresh context with deep-copied variables must continue identically. Non-trivial = at least one die drawn.",
 		Enumerate: c06Enumerate,
 		Run:       c06Run,
 		Budget:    map[string]time.Duration{"quick": 170 * time.Second, "thorough": 40 * time.Minute},
